@@ -144,7 +144,13 @@ def _worker(arg):
     except Exception:
         ctx.violation({"kind": "harness-error", "where": traceback.format_exc().strip().splitlines()[-1][:200]},
                       {"block": block}, traceback.format_exc())
-    return idx, ctx.result()
+    res = ctx.result()
+    # every recorded case remembers the block that produced it: a violation that depends on what the block ran before
+    # (a compiled object or a class living longer than one case) is replayed by re-running the block
+    for ent in res["viol"].values():
+        for c in ent["cases"]:
+            c["block"] = block
+    return idx, res
 
 
 def load_known(pid):
@@ -254,7 +260,7 @@ def run_check(pid: str, tier: str, seed: int) -> int:
         path = os.path.join(REPLAY_OUT, "%s-%s.json" % (pid, digest(ent["sig"])))
         with open(path, "w") as f:
             json.dump({"property": pid, "signature": ent["sig"], "case": c["case"], "detail": c["detail"],
-                       "count": ent["count"], "tier": tier, "seed": seed}, f, indent=1, default=repr)
+                       "count": ent["count"], "tier": tier, "seed": seed, "block": c.get("block")}, f, indent=1, default=repr)
         print("VIOLATION property=%s replay=%s" % (pid, path))
         print("  signature: %s" % canon(ent["sig"]))
         print("  occurrences: %d; smallest case: %s" % (ent["count"], canon(c["case"])[:600]))
@@ -327,6 +333,25 @@ def run_replay(pid: str, path: str) -> int:
             print("  signature: %s" % canon(sig))
             print("  detail: %s" % str(detail)[:3000])
         return 1
+    # the case alone is clean: was it the history inside its block?  Re-run the block (this process is fresh) twice.
+    block = data.get("block")
+    if block is not None and isinstance(block, dict) and hasattr(mod, "run_block"):
+        def run_once():
+            ctx = Ctx(time.time() + float(os.environ.get("VERIF_BUDGET", 3600)), data.get("tier", "quick"), data.get("seed", 0))
+            mod.run_block(block, ctx)
+            return [e for e in ctx.result()["viol"].values() if sig_matches(data["signature"], e["sig"])]
+        hit1, hit2 = run_once(), run_once()
+        if bool(hit1) != bool(hit2):
+            print("REPLAY NONDETERMINISTIC: two runs of the block disagree", file=sys.stderr)
+            return 2
+        if hit1:
+            c = hit1[0]["cases"][0]
+            print("VIOLATION property=%s replay=%s" % (pid, path))
+            print("  signature: %s" % canon(hit1[0]["sig"]))
+            print("  history-dependent: the case alone is clean in a fresh process; re-running its block %s reproduces it (x%d), first at %s"
+                  % (canon(block), hit1[0]["count"], canon(c["case"])[:600]))
+            print("  detail: %s" % str(c["detail"])[:3000])
+            return 1
     print("replay of %s: property holds on this case" % path)
     return 0
 
